@@ -23,6 +23,14 @@ from props import x02_lib as L
 
 LEVEL = "model_checking"
 
+# development aid: X02_PAR=n caps the number of TLC workers + harness processes this check keeps busy at a time
+# (the machine is shared while the framework is being built); the registered tiers use up to 12
+PAR = int(os.environ.get("X02_PAR", "12") or 12)
+
+
+def _w(n):
+    return max(1, min(n, PAR // 2))
+
 IMPL_EXPECTED = [  # (module, cfg, invariant that must be violated, what it shows)
     ("OnceImpl", "OnceImpl_asis.cfg", "DoRunsOwn", "as is: Do(f) overlapping Set(g) executes g"),
     ("PoolImpl", "PoolImpl_asis_mapget.cfg", "NoLiveInPool", "as is: Map.Get pools the default it stored"),
@@ -68,6 +76,7 @@ def _gen_and_replay(rep, binary, job, asis, prefer, rng_seed, label_suffix=""):
     comps_asis = {sw for sw in asis if comp in L.SWITCHES[sw][0]}
     cfgname = "gen_%s.cfg" % name.replace("-", "_")
     text = L.seq_cfg(comp, mode, asis=comps_asis, prefer=prefer, **ckw)
+    tkw = dict(tkw, workers=_w(tkw.get("workers", 1)))
     r = L.tlc.run_tlc(L.COMP, "AdtSeq", cfgname, timeout=1500, heap="5g", files={cfgname: text}, **tkw)
     note = {"all": "every sequence of %d calls" % ckw["depth"], "edge": "one shortest behaviour per edge of the abstract state graph",
             "sim": "random walks of %d calls" % ckw["depth"]}[mode] + " on " + comp + (" AsIs=%s" % sorted(comps_asis) if comps_asis else "")
@@ -131,11 +140,12 @@ def run(rep, tier, seed, replay_file=None):
 
     # ---- 1. interleaving models (design level) and the expected-violation self-tests
     t0 = time.time()
-    jobs = [("OnceImpl", "OnceImpl", "OnceImpl_small.cfg" if quick else "OnceImpl_MC.cfg", dict(workers=2 if quick else 6, timeout=1500)),
-            ("PoolImpl", "PoolImpl", "PoolImpl_small.cfg" if quick else "PoolImpl_MC.cfg", dict(workers=2 if quick else 6, timeout=1500, heap="6g")),
-            ("OnceImpl-asis-rest", "OnceImpl", "OnceImpl_asis_small.cfg" if quick else "OnceImpl_asis_rest.cfg", dict(workers=2 if quick else 4, timeout=1500))]
+    jobs = [("OnceImpl", "OnceImpl", "OnceImpl_small.cfg" if quick else "OnceImpl_MC.cfg", dict(workers=2 if quick else 4, timeout=1500)),
+            ("PoolImpl", "PoolImpl", "PoolImpl_small.cfg" if quick else "PoolImpl_MC.cfg", dict(workers=2 if quick else 4, timeout=1500, heap="6g")),
+            ("OnceImpl-asis-rest", "OnceImpl", "OnceImpl_asis_small.cfg" if quick else "OnceImpl_asis_rest.cfg", dict(workers=2, timeout=1500))]
     jobs += [("%s/%s" % (m, c), m, c, dict(workers=1, timeout=600)) for m, c, _, _ in IMPL_EXPECTED]
-    res = L.run_tlc_parallel(jobs, max_parallel=6 if quick else 4)
+    jobs = [(a, b, c, dict(kw, workers=_w(kw["workers"]))) for a, b, c, kw in jobs]
+    res = L.run_tlc_parallel(jobs, max_parallel=_w(12 if quick else 8))
     for name, module, cfg, _ in jobs[:3]:
         r = res[name]
         rep.add_tlc("%s/%s" % (module, cfg), r, "exhaustive interleavings; invariants and temporal properties of the cfg")
@@ -151,7 +161,7 @@ def run(rep, tier, seed, replay_file=None):
     t0 = time.time()
     plan = _plan(quick, seed)
     summaries = []
-    with cf.ThreadPoolExecutor(max_workers=5 if quick else 4) as ex:
+    with cf.ThreadPoolExecutor(max_workers=_w(10 if quick else 8)) as ex:
         futs = [ex.submit(_gen_and_replay, rep, binary, job, asis, prefer, seed) for job in plan]
         for f in futs:
             s = f.result()
@@ -185,7 +195,7 @@ def run(rep, tier, seed, replay_file=None):
     # ---- 4. concurrent histories recorded from the real types, validated by TLC
     t0 = time.time()
     n = 60 if quick else 700
-    shards = 4 if quick else 6
+    shards = _w(8 if quick else 12)
     kinds = ["map", "atomic", "sync", "once", "casduel", "onceduel"]
     hists = {k: [] for k in kinds}
     trials = {}
@@ -205,7 +215,7 @@ def run(rep, tier, seed, replay_file=None):
     rep.cov["recorded_trials"] = trials
     rep.cov["distinct_histories"] = {k: len(v) for k, v in hists.items()}
     lin_asis = asis & set(L.LIN_SWITCH_KEY)
-    with cf.ThreadPoolExecutor(max_workers=3) as ex:
+    with cf.ThreadPoolExecutor(max_workers=_w(6)) as ex:
         futs = [ex.submit(L.validate_all, rep, hists[k], asis=lin_asis, label=k, shards=2 if quick else 3) for k in kinds]
         counts = [f.result() for f in futs]
     rep.cov["rejected_histories"] = {k: c for k, c in zip(kinds, counts) if c}
